@@ -90,6 +90,8 @@ POOL = ["ret", "nop", "push rax", "clc", "nop2", "xor eax, eax", "push r8", "add
         "add rcx, 0x1ffffffffffffffff", "push 99999999999999999999999", "mov rax, [rbx+0x10000000000000000]",
         # displacements wider than 32 bits (accepted and truncated by the library: whatever they do, no write may leave the buffer)
         "mov rax, [rbx+0x123456789]", "add dword [rcx+rdx*2+0x1000000ff], 1", "lea rax, [rbx+0xffffffff80]", "mov rax, [rbx+4294967424]",
+        # the longest encodings the library can be made to emit (an 8-byte immediate behind a 32-bit-address SIB operand: 16 and 17 bytes)
+        "and qword [r8d+r9d*8+0x12345678], 0x1122334455667788", "add qword [eax+ecx*8+0x12345678], 0x1122334455667788", "test qword [r8d+r9d*8+0x12345678], 0x1122334455667788",
         # immediates equal to the value strtoul reports on overflow
         "add rax, -1", "mov rcx, 0xffffffffffffffff", "push -1", "and rdx, 0xffffffffffffffff", "mov rax, 18446744073709551615"]
 BADLINES = ["bogus rax", "mov [rax], [rbx]", "add rax, rxx", "lea rax, [rsp+rsp]"]
